@@ -19,7 +19,7 @@ ResText(t) ==
       kf == IF Centro(S) /\ ~InversionAtOrigin(S) /\ x.latt > 0 THEN " KF=C02-latt-origin" ELSE "" IN
   IF x.exc # "" THEN "REJECT TextUnreadable" \o Tag(t) ELSE
   IF ~SymmTextsOK(x.symm) THEN "REJECT SymmText" \o Tag(t) ELSE
-  IF \E i \in DOMAIN x.symm : x.symm[i].code = IdentityCode THEN "ACCEPT drift=IdentityListed" ELSE
+  IF \E i \in DOMAIN x.symm : SymmCodes(x.symm)[i] = IdentityCode THEN "ACCEPT drift=IdentityListed" ELSE
   IF ~ResDenotes(x.latt, x.symm, S) THEN "REJECT LattSymm" \o Tag(t) \o kf ELSE
   IF x.celloff \/ ~CellClose(x.cell, t.cell, 1) THEN "REJECT CellText" \o Tag(t) ELSE
   IF x.atomsoff \/ ~ResAtomsOK(x.sfac, x.atoms, t.asym) THEN "REJECT AtomText" \o Tag(t) ELSE "ok"
